@@ -363,25 +363,34 @@ def check_kv(ctx, chk, db, W, ty, adt, ents, paths, fb):
 
 
 def _check_kv(ctx, chk, db, W, ty, adt, ents, paths, fb, is_enum, lit_seen):
+    # one table per match arm (per type for structs): consecutive write! calls of the same arm are one output
+    # (`write!(f, "T:a={};b={}", ..)?; write!(f, ";c={}", ..)`)
+    groups = []
     for e in ents:
+        if groups and groups[-1][0].arm == e.arm:
+            groups[-1].append(e)
+        else:
+            groups.append([e])
+    for grp in groups:
+        e = grp[0]
         variant = T.arm_variant(e.arm) if is_enum else None
-        bind = T.arm_bindings(e.arm)
         ftys = field_types(adt, variant)
         key = "%s%s" % (ty, ("::" + variant) if variant else "")
         tag = e.template.split(":", 1)[0] if ":" in e.template else None
-        phs = e.placeholders()
         wmap = {}
-        mir_paths = MIRW.get(ty, {}).get(e.callsite, [])
-        for k, ai, trait, default, prev in phs:
-            field, idiom = mir_field(mir_paths, ai, ftys)
-            if field is None:
-                field, idiom = T.arg_field(e.args[ai], bind) if ai < len(e.args) else (None, "missing-arg")
-            if k is None or field is None:
-                chk.fail("X2", key + ":writer-shape", e.callsite, "cannot read key/field of placeholder after %r (argument %s)" % (prev, e.args[ai][:60] if ai < len(e.args) else "?"), undecided=True)
-                continue
-            if k in wmap:
-                chk.fail("X2", key + ":duplicate-key:" + k, e.callsite, "key %s is written twice" % k)
-            wmap[k] = (field, idiom, trait, default)
+        for e2 in grp:
+            bind = T.arm_bindings(e2.arm)
+            mir_paths = MIRW.get(ty, {}).get(e2.callsite, [])
+            for k, ai, trait, default, prev in e2.placeholders():
+                field, idiom = mir_field(mir_paths, ai, ftys)
+                if field is None:
+                    field, idiom = T.arg_field(e2.args[ai], bind) if ai < len(e2.args) else (None, "missing-arg")
+                if k is None or field is None:
+                    chk.fail("X2", key + ":writer-shape", e2.callsite, "cannot read key/field of placeholder after %r (argument %s)" % (prev, e2.args[ai][:60] if ai < len(e2.args) else "?"), undecided=True)
+                    continue
+                if k in wmap:
+                    chk.fail("X2", key + ":duplicate-key:" + k, e2.callsite, "key %s is written twice" % k)
+                wmap[k] = (field, idiom, trait, default)
         rp = [p for p in paths if (p.variant == variant if is_enum else True)]
         if not chk.require(len(rp) >= 1, "X1", key + ":reader-builds-variant", fb.span, "the parser never returns %s" % key):
             continue
